@@ -10,6 +10,7 @@ import KyupyVerif.Proofs.StripLinkMem
 import KyupyVerif.Proofs.WaveIOCheck
 import KyupyVerif.Proofs.WaveIOOrder
 import KyupyVerif.Props.C13
+import KyupyVerif.Proofs.LevelMem
 /-! # C06 — results do not depend on performance options, lane position or code path
 
 What is theorem here:
@@ -84,7 +85,7 @@ What is theorem here:
     same `_wave_eval`), `level_paths_agree` (a kernel launch = `level_eval_cpu` on all of `c` and `abuf`, every block shape, no
     independence assumption: the launcher keeps the op order inside a lane), `c_prop_paths_agree` (induction over the levels),
     `level_any_thread_order` (every permutation of the threads of a level, under footprint independence of its ops; accumulation
-    commutes) with the instance `level_any_thread_order_wave` for the evaluator `evWave` built from `Wave.waveSem`;
+    commutes) with the instance `level_any_thread_order_wave` for the evaluator `evWave` built from `Wave.waveSem` (audit-2 finding 3: equal accumulators and equal memory OUTSIDE the scratch regions, under footprint conditions modulo scratch that follow from the map certificate — `C07.level_threads_any_order`; the whole-memory form under `opsIndepB`, false for two scratch writers in a level, is `level_any_thread_order_wave_exact`);
     `eval_reads_back` (one `evWave` evaluation: the output region reads back as `Wave.waveSem` of the operand waveforms read
     from memory, counts = `Wave.waveCounts`, nothing outside the output region changes);
   - capture (`sd = 0`): `capture_paths_agree` (index loop = slice scan = `captureWv` of the waveform the region encodes, i.e. the
@@ -1118,10 +1119,34 @@ theorem level_any_thread_order (ev : Ev) (rd wr : OpRow → Int → Prop) (hev :
     runLanes (evalWork ev ops opStart) l S = cpuLevel ev ops opStart opStop 0 sims S :=
   level_any_order ev rd wr hev ops opStart opStop sims hind l hl S
 
-/-- … instantiated with the evaluator built from the waveform model: its footprints are the regions `c_locs[i] … + c_caps[i]`
-    of the output index (read and written) and of the operand indices (read); independence of two rows is the Boolean
-    `opsIndepB` on `c_locs` / `c_caps` -/
-theorem level_any_thread_order_wave (g : WCfg) (loc : Nat → Int) (hcap : ∀ i, 2 ≤ g.cap i) (ops : List AOp)
+/-- **… instantiated with the evaluator built from the waveform model, on tables as `SimOps` builds them (audit-2 finding 3).**
+    Footprints of a row: the regions `c_locs[i] … + c_caps[i]` of the operand indices (read) and of the output index (written;
+    cells behind the stored waveform are kept). Several rows of one level may write the scratch slot `t1 = tmp_idx` (every gate
+    with an unconnected output, sim.py:198; `t2 = tmp2_idx`), so the whole memory is NOT order independent; the statement is
+    about everything else. Hypotheses, all Boolean on `c_locs` / `c_caps` (`Model/LevelMem.lean`): output capacities ≥ 2;
+    no row of the level reads a scratch region (`rowScrFreeB`); two different rows are independent modulo scratch
+    (`pairIndepJB`: unless a row writes scratch, its output region is disjoint from the operand regions and — unless that one
+    writes scratch — the output region of the other). Conclusion: every permutation of the (sim, op) work items leaves on every
+    lane the same accumulators and the same memory cell at every address OUTSIDE the two scratch regions as `level_eval_cpu`.
+    The hypotheses are consequences of the map certificate (`C07.level_conditions_of_certificate`; `C07.level_threads_any_order`
+    is this theorem with `MapIn.check = none` in their place) and are evaluated on the real tables (driver `opsindep`). -/
+theorem level_any_thread_order_wave (g : WCfg) (loc : Nat → Int) (t1 t2 : Nat) (ops : List AOp) (opStart opStop sims : Nat)
+    (hcap : ∀ y, y < opStop - opStart → 2 ≤ g.cap (ops.getD (opStart + y) default).op.out)
+    (hscr : ∀ y, y < opStop - opStart → rowScrFreeB loc g.cap t1 t2 (ops.getD (opStart + y) default).op = true)
+    (hind : ∀ y y', y < opStop - opStart → y' < opStop - opStart → y ≠ y' →
+      pairIndepJB loc g.cap t1 t2 (ops.getD (opStart + y) default).op (ops.getD (opStart + y') default).op = true)
+    (l : List (Nat × Nat)) (hl : l.Perm (cpuLoop sims (opStop - opStart))) (S : Nat → LaneSt) (k : Nat) :
+    (runLanes (evalWork (evWave (fun _ => g) loc) ops opStart) l S k).ab =
+      (cpuLevel (evWave (fun _ => g) loc) ops opStart opStop 0 sims S k).ab ∧
+    ∀ a, ¬ scrAddr loc g.cap t1 t2 a →
+      (runLanes (evalWork (evWave (fun _ => g) loc) ops opStart) l S k).c a =
+        (cpuLevel (evWave (fun _ => g) loc) ops opStart opStop 0 sims S k).c a :=
+  level_any_order_wave_modscratch g loc t1 t2 ops opStart opStop sims hcap hscr hind l hl S k
+
+/-- the WHOLE memory (scratch regions included), under the stronger footprint condition `opsIndepB` (output region of each row
+    disjoint from the output AND operand regions of the other): holds for levels with at most one scratch writer and is FALSE
+    for two rows writing the scratch slot (`example` below, and `C07.scrMap`) — the former `level_any_thread_order_wave` -/
+theorem level_any_thread_order_wave_exact (g : WCfg) (loc : Nat → Int) (hcap : ∀ i, 2 ≤ g.cap i) (ops : List AOp)
     (opStart opStop sims : Nat)
     (hind : ∀ y y', y < opStop - opStart → y' < opStop - opStart → y ≠ y' →
       opsIndepB loc g.cap (ops.getD (opStart + y) default).op (ops.getD (opStart + y') default).op = true)
@@ -1130,11 +1155,16 @@ theorem level_any_thread_order_wave (g : WCfg) (loc : Nat → Int) (hcap : ∀ i
   level_any_order _ _ _ (evWave_local g loc hcap) ops opStart opStop sims
     (fun y y' hy hy' hne => opsIndepB_sound (hind y y' hy hy' hne)) l hl S
 
-/-- non-vacuity: level 1 of the example (`10 = AND(0,1)`, `11 = XOR(1,2)`, regions of 8 cells) with its six threads in a
-    scrambled order -/
+/-- two rows writing the scratch slot 7: `opsIndepB` fails, `pairIndepJB` holds -/
+example : opsIndepB (fun i => 8 * i) (fun _ => 8) ⟨0x8888, 7, 0, 1, 9, 9⟩ ⟨0x6666, 7, 1, 2, 9, 9⟩ = false ∧
+    pairIndepJB (fun i => 8 * i) (fun _ => 8) 7 8 ⟨0x8888, 7, 0, 1, 9, 9⟩ ⟨0x6666, 7, 1, 2, 9, 9⟩ = true ∧
+    rowScrFreeB (fun i => 8 * i) (fun _ => 8) 7 8 ⟨0x8888, 7, 0, 1, 9, 9⟩ = true := by decide
+
+/-- non-vacuity: level 1 of the example (`10 = AND(0,1)`, `11 = XOR(1,2)`, regions of 8 cells, scratch slots 13, 14) with its six
+    threads in a scrambled order -/
 example : runLanes (evalWork pathEv pathOps 0) [(2, 1), (0, 0), (1, 1), (2, 0), (0, 1), (1, 0)] pathS0 =
     cpuLevel pathEv pathOps 0 2 0 3 pathS0 :=
-  level_any_thread_order_wave pathCfg (fun i => 8 * i) (fun _ => (by decide : 2 ≤ 8)) pathOps 0 2 3
+  level_any_thread_order_wave_exact pathCfg (fun i => 8 * i) (fun _ => (by decide : 2 ≤ 8)) pathOps 0 2 3
     (by
       intro y y' hy hy' hne
       have h1 : y = 0 ∨ y = 1 := by omega
@@ -1145,6 +1175,25 @@ example : runLanes (evalWork pathEv pathOps 0) [(2, 1), (0, 0), (1, 1), (2, 0), 
       · decide
       · exact absurd rfl hne)
     _ (by decide) pathS0
+
+/-- non-vacuity of the restated theorem: a level whose two rows BOTH write the scratch slot 13 (`pathOps` with the outputs
+    renamed), six threads in a scrambled order -/
+def scrOps : List AOp := [⟨⟨0x8888, 13, 0, 1, 9, 9⟩, 0, 1, 1⟩, ⟨⟨0x6666, 13, 1, 2, 9, 9⟩, -1, 0, 0⟩]
+example (k : Nat) := level_any_thread_order_wave pathCfg (fun i => 8 * i) 13 14 scrOps 0 2 3 (fun _ _ => (by decide : 2 ≤ 8))
+    (by
+      intro y hy
+      have h1 : y = 0 ∨ y = 1 := by omega
+      rcases h1 with rfl | rfl <;> decide)
+    (by
+      intro y y' hy hy' hne
+      have h1 : y = 0 ∨ y = 1 := by omega
+      have h2 : y' = 0 ∨ y' = 1 := by omega
+      rcases h1 with rfl | rfl <;> rcases h2 with rfl | rfl
+      · exact absurd rfl hne
+      · decide
+      · decide
+      · exact absurd rfl hne)
+    [(2, 1), (0, 0), (1, 1), (2, 0), (0, 1), (1, 0)] (by decide) pathS0 k
 
 /-! ### capture (`c_to_s`, `sd = 0`) -/
 
